@@ -97,3 +97,71 @@ func TestCancelRaceZone(t *testing.T) {
 		stats.Case(checkRace, won > 0 && lost > 0, fmt.Sprint(workers, trials), func() any { return payload }, ls...)
 	})
 }
+
+// TestCancelRacingShutdown: Cancel(id) calls issued at the very moment a Shutdown with IgnorePendingTimeouts (and
+// DontWaitForShutdown) wakes the workers that hold the tasks. Whichever side wins for a task, Cancel(id)'s answer must
+// be the truth: true <=> the callback never ran.
+func TestCancelRacingShutdown(t *testing.T) {
+	const check = "cancel_racing_shutdown"
+	stats.Rule(check, "rapid draws 1..4 workers, 1..8 identifiers with tasks due in 300 ms, shutdown flags from {IgnorePendingTimeouts, IgnorePendingTimeouts|CancelPendingElements, none, CancelPendingElements} (always with DontWaitForShutdown) and a 0..20 us head start for either side; 40 trials (thorough 300) per case: fresh TaskExecutor, tasks scheduled, a moment for the workers to take them, then one goroutine calls Shutdown(flags) and another calls Cancel(id) for every identifier, released together; afterwards a waiting Shutdown(CancelPendingElements) ends the trial (20 s watchdog). Oracle per identifier: the callback ran at most once; Cancel(id) == true => it never ran. (Cancel == false does not imply a run here: the shutdown may have dropped the task.) Distinct by configuration; non-trivial = an IgnorePendingTimeouts shutdown with >= 2 workers")
+	trials := stats.Scale(40, 300)
+	rapid.Check(t, func(rt *rapid.T) {
+		workers := rapid.IntRange(1, 4).Draw(rt, "workers")
+		ids := rapid.IntRange(1, 8).Draw(rt, "ids")
+		flags := rapid.SampledFrom([]int{fIgnore, fIgnore, fIgnore | fCancel, 0, fCancel}).Draw(rt, "flags") | fNoWait
+		headUs := rapid.IntRange(-20, 20).Draw(rt, "headStartUs")
+		desc := fmt.Sprintf("workers=%d ids=%d shutdown=%s cancelHeadStart=%dus", workers, ids, flagName(flags), headUs)
+		failf := func(format string, a ...any) {
+			msg := fmt.Sprintf(format, a...)
+			stats.Violation(check, map[string]any{"config": desc, "problem": msg})
+			rt.Fatalf("%s: %s", desc, msg)
+		}
+		for trial := 0; trial < trials; trial++ {
+			te := timed.NewTaskExecutor[int](workers)
+			ran := make([]atomic.Int32, ids)
+			due := time.Now().Add(300 * time.Millisecond)
+			for i := 0; i < ids; i++ {
+				i := i
+				te.ExecuteAt(i, func() { ran[i].Add(1) }, due)
+			}
+			time.Sleep(200 * time.Microsecond) // lets the workers take the first tasks out of the queue (steering only)
+			results := make([]bool, ids)
+			var ready atomic.Int32
+			done := make(chan struct{}, 2)
+			spin := func(us int) {
+				ready.Add(1)
+				for ready.Load() < 2 {
+				}
+				if us > 0 {
+					for t0 := time.Now(); time.Since(t0) < time.Duration(us)*time.Microsecond; {
+					}
+				}
+			}
+			go func() { spin(headUs); te.Shutdown(flagList(flags)...); done <- struct{}{} }()
+			go func() {
+				spin(-headUs)
+				for i := 0; i < ids; i++ {
+					results[i] = te.Cancel(i)
+				}
+				done <- struct{}{}
+			}()
+			for k := 0; k < 2; k++ {
+				if !ctl.WaitChan(done, ctl.HangTimeout) {
+					failf("trial %d: Shutdown(DontWaitForShutdown) or Cancel(id) did not return\n%s", trial, ctl.Dump())
+				}
+			}
+			if !ctl.WithinHang(func() { te.Shutdown(timed.CancelPendingElements) }) {
+				failf("trial %d: the final waiting Shutdown did not return\n%s", trial, ctl.Dump())
+			}
+			for i := 0; i < ids; i++ {
+				switch n := ran[i].Load(); {
+				case n > 1:
+					failf("trial %d: the callback of identifier %d ran %d times", trial, i, n)
+				case results[i] && n != 0:
+					failf("trial %d: Cancel(%d) returned true (it prevented the task from running) but the callback ran", trial, i)
+				}
+			}
+		}
+		stats.Case(check, flags&fIgnore != 0 && workers >= 2, desc, func() any { return desc })
+	})
+}
